@@ -1342,7 +1342,16 @@ def convpipe_family(tier, seed):
                   "trace": traceback.format_exc()[-600:]})
 
 
-def layoutpipe_family(tier, seed):
+def stylepipe_family(tier, seed):
+    """the layout pipeline on a model whose field ids are single words WITH capitals and mixed words: the documented name styles
+    (the first word is lower-cased by the lower* / camel* styles, every word by upper* ...) apply to them like to any other id"""
+    styles = ["camel", "pascal", "upper_snake", "lower_kebab", "lower", None]
+    layoutpipe_family(tier, seed, FIELDS=[("userID", None), ("URL", None), ("event_name", None), ("x", 1), ("rest", "dict")],
+                      only_cfgs=[{"nms": [{"name_style": st} if st else {}]} for st in styles]
+                      + [{"nms": [{"name_style": "camel", "map": [{"t": "dict", "m": {"URL": "link"}}]}]}], idx_base=100000)
+
+
+def layoutpipe_family(tier, seed, FIELDS=None, only_cfgs=None, idx_base=0):
     """whole model loader/dumper compilation pipeline (name_mapping facade -> overlays -> structure maker -> crown builder
     -> code generation) on enumerated name_mapping configurations over one dataclass model; the emitted sources are
     collected by CodeGenAccumulator.  No loader or dumper is called."""
@@ -1353,7 +1362,7 @@ def layoutpipe_family(tier, seed):
     from adaptix._internal.morphing.model.basic_gen import CodeGenAccumulator
 
     rnd = random.Random(seed + 7)
-    FIELDS = [("a", None), ("b_", None), ("c_d", 1), ("e__", 2), ("long_name_x", None), ("_p", 0), ("rest", "dict")]
+    FIELDS = FIELDS or [("a", None), ("b_", None), ("c_d", 1), ("e__", 2), ("long_name_x", None), ("_p", 0), ("rest", "dict")]
 
     def make_model(with_rest):
         fl = []
@@ -1483,8 +1492,11 @@ def layoutpipe_family(tier, seed):
         {"nms": [{"omit_default": True, "map": [{"t": "dict", "m": {"a": ["o", "i", "a"], "c_d": ["o", "i", "c"], "e__": ["o", "j", "i", "e"]}}]}]},
     ]
     n_rand = 120 if tier == "quick" else 1200
-    cfgs = fixed + [{"nms": [gen_nm() for _ in range(rnd.choice([1, 1, 2]))]} for _ in range(n_rand)]
-    for idx, cfg in enumerate(cfgs):
+    if only_cfgs is not None:
+        cfgs = only_cfgs
+    else:
+        cfgs = fixed + [{"nms": [gen_nm() for _ in range(rnd.choice([1, 1, 2]))]} for _ in range(n_rand)]
+    for idx, cfg in enumerate(cfgs, start=idx_base):
         try:
             with_rest = any(nm.get("extra_in") == "rest" or nm.get("extra_out") == "rest" for nm in cfg["nms"])
             cfg["with_rest"] = with_rest
@@ -2501,7 +2513,7 @@ def outonly_family(tier, seed):
 FAMILIES = {"soundness": soundness_family, "generics": generics_family,
             "loader": loader_family, "dumper": dumper_family, "literal": literal_family, "hostile": hostile_family,
             "broach": broach_family, "converter": converter_family, "convpipe": convpipe_family,
-            "layoutpipe": layoutpipe_family, "kinds": kinds_family, "enumtables": enumtables_family, "outonly": outonly_family}
+            "layoutpipe": layoutpipe_family, "kinds": kinds_family, "enumtables": enumtables_family, "outonly": outonly_family, "stylepipe": stylepipe_family}
 
 
 def main():
